@@ -374,6 +374,23 @@ where
     }
 }
 
+/// Verification hook (cfg `mini_mcmc_verif` only): read access to the chains' adaptation state.
+#[cfg(mini_mcmc_verif)]
+impl<T, B, GTarget> NUTS<T, B, GTarget>
+where
+    T: Float + ElementConversion + Element + SampleUniform + FromPrimitive + Send,
+    B: AutodiffBackend + Send,
+    GTarget: GradientTarget<T, B> + Sync + Clone + Send,
+    StandardNormal: rand::distr::Distribution<T>,
+    StandardUniform: rand_distr::Distribution<T>,
+    rand_distr::Exp1: rand_distr::Distribution<T>,
+{
+    /// `(m, epsilon, epsilon_bar, h_bar, mu, n_discard)` of every chain, in chain order.
+    pub fn adapt_states_verif(&self) -> Vec<(usize, T, T, T, T, usize)> {
+        self.chains.iter().map(|c| c.adapt_state()).collect()
+    }
+}
+
 /// Single-chain state and adaptation for NUTS.
 ///
 /// Manages the dynamic trajectory building, dual-averaging adaptation of step size,
